@@ -234,5 +234,11 @@ Definition step (s : store) (o : op) : store * res :=
        RCount (lenN (filter (fun kv => negb (min_ts <=? fst (snd kv))) (snaps s))))
   end.
 
+(* Closing the store and opening the same database file again (clean shutdown).  The abstract store is the content of the
+   file, so the specification of a reopen is the identity; the correspondence check closes and reopens the real SQLite file
+   at random positions of every operation sequence and compares everything observable before / after, and every later
+   operation with this model. *)
+Definition reopen (s : store) : store := s.
+
 Definition run (ops : list op) (s : store) : store * list res :=
   fold_left (fun acc o => let '(st, out) := acc in let '(st', r) := step st o in (st', out ++ [r])) ops (s, []).
